@@ -209,9 +209,9 @@ CLAIMS.update({
                 'cumulative point => flag up after SACK and after every T3; a gather emits the chunk exactly when flag and point say so, with that point and the lists of the state it leaves), '
                 'C07_forward_lists_exact (one entry per stream; each entry is the SSN/MID of an abandoned ORDERED chunk in the range - unordered ones are not listed in FORWARD-TSN; it is the '
                 'greatest one when fewer than 2^15 SSNs / 2^31 MIDs of the stream are skipped at once), C07_abandonment_monotone (no premise), C07_reliable_never_abandoned (DCEP chunks and chunks '
-                'of a stream that is never given a partially reliable policy belong to no abandoned message, whatever happens to other messages), C07_abandoned_not_retransmitted_partial (T3 and '
-                'RACK/PTO marks never flag, the fast-retransmit gather never sends an abandoned chunk; the T3 retransmission gather sends exactly the flagged chunks) with '
-                'C07_abandoned_retransmitted_witness (finding D21: a chunk flagged before its message became abandoned is retransmitted; replayed on the code from corpus/C07/known). '
+                'of a stream that is never given a partially reliable policy belong to no abandoned message, whatever happens to other messages), C07_abandoned_not_retransmitted (T3 and '
+                'RACK/PTO marks never flag, the fast-retransmit gather and the T3 retransmission gather never send an abandoned chunk) with C07_d21_regression (finding D21, found by this '
+                'theorem: getDataPacketsToRetransmit did not test abandoned(); fixed in /repo, the model mirrors the fix, the witness is replayed from corpus/C06 and corpus/C07). '
                 'NOT covered by theorems: the RECEIVER half (handleForwardTSN / forwardTSNFor*: nothing that was not abandoned is purged, later messages are delivered, partially received and '
                 'first-on-stream cases) and the composition of both halves. '
                 'SYSTEM LEVEL (exploration, synctest e2e): ' + CLAIMS['C07']['text'],
